@@ -3,6 +3,8 @@
 P="$1"; K="$2"; LINE="$3"
 SRC=${SEED_ROOT:-/tmp/seed}/out/$P/$K; DST=/verif/seeded/$P-${SEED_TAG:-}$K
 mkdir -p "$DST" && cp "$SRC"/patch.diff "$SRC"/demo_cmd.txt "$SRC"/*_test.go "$DST"/ 2>/dev/null
+# demo files stored only mirrored (os/seed_demo_test.go ...) are kept flat; demo_cmd.txt names the package they belong to
+for f in $(cd "$SRC" && find . -mindepth 2 -name '*_test.go'); do [ -f "$DST/$(basename "$f")" ] || cp "$SRC/$f" "$DST/"; done
 python3 - "$SRC/meta.json" "$DST/meta.json" "$LINE" "$(git -C /repo rev-parse --short HEAD)" <<'PY'
 import json,sys
 m=json.load(open(sys.argv[1]))
